@@ -16,12 +16,12 @@
     C14_building assembles the carrier statements into the building totals for the regulatory factor sets.
 
     Load matching: the used production g(u, p) = f(p/u) min(u, p) is non-decreasing and 1-Lipschitz in p
-    (C14_load_matching_used_production), which gives the same carrier statements when electricity has no cogeneration
-    (C14_load_matching_without_cogeneration).
-
-    PARTIAL: load matching together with cogeneration (the factor depends on the total production while the priority
-    allocation does not) is decided by the differential run only. *)
-From Cteepbd Require Import Model.Factors Proofs.StepFacts Proofs.ColFacts Proofs.DataEquiv Proofs.ClosedForm Proofs.RerFacts Proofs.PvFacts Proofs.PvBuilding Proofs.LmMono.
+    (C14_load_matching_used_production), and the cogenerated electricity used in a step,
+    f((pv + chp)/u) min(chp, u - min(pv, u)), does not grow with pv (C14_load_matching_cogeneration_used), which
+    gives the same carrier statements with load matching, with or without cogeneration
+    (C14_load_matching_carrier; C14_load_matching_without_cogeneration adds the renewable part), and the building
+    statement C14_building for both values of the load matching switch. *)
+From Cteepbd Require Import Model.Factors Proofs.StepFacts Proofs.ColFacts Proofs.DataEquiv Proofs.ClosedForm Proofs.RerFacts Proofs.PvFacts Proofs.PvBuilding Proofs.LmMono Proofs.LmCogen.
 Open Scope Qc_scope.
 
 Section Statement.
@@ -71,16 +71,16 @@ Theorem C14_ratio : forall r n r' n' ro no : Qc,
 Proof. exact ratio_mono. Qed.
 
 (** the whole building, under a regulatory factor set ([reg_set]: what Factors::normalize and the CTE tables give):
-    one more EL_INSITU production component — evaluated with the same factors, k_exp in [0,1], any area, no load
-    matching — and the building's non-renewable primary energy, its emissions (step A and step B) and the energy
+    one more EL_INSITU production component — evaluated with the same factors, k_exp in [0,1], any area, with or
+    without load matching — and the building's non-renewable primary energy, its emissions (step A and step B) and the energy
     delivered by the grids do not grow.  The other carriers do not see the component; the cogeneration factor is the same. *)
-Theorem C14_building : forall (fs0 : list Factor) (c : Components) (i : Z) (dv : list Qc) (cm : str) (k area : Qc) (n : nat) (ep ep' : EP),
+Theorem C14_building : forall (lm : bool) (fs0 : list Factor) (c : Components) (i : Z) (dv : list Qc) (cm : str) (k area : Qc) (n : nat) (ep ep' : EP),
   reg_set fs0 -> nonneg_data (c_data c) -> dom_data (c_data c) -> wf n (c_data c) -> (0 < n)%nat ->
   length dv = n -> Forall (fun v => 0 <= v) dv -> Forall zg dv ->
   In ELECTRICIDAD (avail_carriers (c_data c)) -> filter (has_carrier ELECTRICIDAD) (c_data c) <> nil ->
   0 <= k <= 1 ->
-  energy_performance c fs0 k area false = Ok ep ->
-  energy_performance (mkComponents (c_meta c) (c_data c ++ [EProd i EL_INSITU dv cm]) (c_needs c)) fs0 k area false = Ok ep' ->
+  energy_performance c fs0 k area lm = Ok ep ->
+  energy_performance (mkComponents (c_meta c) (c_data c ++ [EProd i EL_INSITU dv cm]) (c_needs c)) fs0 k area lm = Ok ep' ->
   nren (t_we_a ep') <= nren (t_we_a ep) /\ co2 (t_we_a ep') <= co2 (t_we_a ep)
   /\ nren (t_we_b ep') <= nren (t_we_b ep) /\ co2 (t_we_b ep') <= co2 (t_we_b ep)
   /\ t_del_grid ep' <= t_del_grid ep.
@@ -116,6 +116,42 @@ Theorem C14_load_matching_without_cogeneration :
     /\ ren (we_a (we_of_parts k p)) <= ren (we_a (we_of_parts k p'))
     /\ a_del_grid x' <= a_del_grid x.
 Proof. intros. eapply pv_monotone_carrier_lm; eassumption. Qed.
+
+(** with load matching and cogeneration: the cogenerated electricity used in a step does not grow when the on-site
+    production grows (so the exported cogenerated electricity does not shrink) *)
+Theorem C14_load_matching_cogeneration_used : forall u pv pv' chp : Qc,
+  0 < u -> 0 <= pv -> pv <= pv' -> 0 <= chp -> 0 < pv + chp ->
+  Fq u (pv' + chp) * qmin chp (u - qmin pv' u) <= Fq u (pv + chp) * qmin chp (u - qmin pv u).
+Proof. exact hc_mono. Qed.
+
+Theorem C14_load_matching_factor_is_F : forall u p : Qc, 0 < u -> 0 < p ->
+  (p / u + 1 / (p / u) - 1) / (p / u + 1 / (p / u)) = Fq u p.
+Proof. exact fmatch_Fq. Qed.
+
+(** a step with load matching and both electricity sources declared *)
+Theorem C14_load_matching_step_both_sources : forall c d, col_ok c -> el_col c -> 0 <= d ->
+  s_del_grid (srg true (bump d c)) <= s_del_grid (srg true c) /\ s_exp (srg true c) <= s_exp (srg true (bump d c))
+  /\ s_exp_src (srg true c) EL_COGEN <= s_exp_src (srg true (bump d c)) EL_COGEN
+  /\ s_used_src (srg true c) EL_INSITU <= s_used_src (srg true (bump d c)) EL_INSITU.
+Proof. intros. apply step_lm_prio; assumption. Qed.
+
+(** the electricity carrier with load matching, whatever is declared for it *)
+Theorem C14_load_matching_carrier :
+  forall (data : list Energy) (i : Z) (dv : list Qc) (cm : str),
+  let x := mk_ctx ELECTRICIDAD true data in
+  let x' := mk_ctx ELECTRICIDAD true (data ++ [EProd i EL_INSITU dv cm]) in
+  nonneg_data data -> dom_data data -> Forall (fun v => 0 <= v) dv -> Forall zg dv ->
+  filter (has_carrier ELECTRICIDAD) data <> nil ->
+  forall (fs : list Factor) (g phi : RNC) (k : Qc),
+  regular fs ELECTRICIDAD (cx_srcs x) g (fsrc_reg phi) -> regular fs ELECTRICIDAD (cx_srcs x') g (fsrc_reg phi) ->
+  rnc_nonneg g -> rnc_nonneg phi -> 0 <= k <= 1 ->
+  exists p p', weighted_parts fs x = Ok p /\ weighted_parts fs x' = Ok p'
+    /\ nren (we_a (we_of_parts k p')) <= nren (we_a (we_of_parts k p))
+    /\ co2 (we_a (we_of_parts k p')) <= co2 (we_a (we_of_parts k p))
+    /\ nren (we_b (we_of_parts k p')) <= nren (we_b (we_of_parts k p))
+    /\ co2 (we_b (we_of_parts k p')) <= co2 (we_b (we_of_parts k p))
+    /\ a_del_grid x' <= a_del_grid x.
+Proof. intros. eapply pv_monotone_carrier_lm_all; eassumption. Qed.
 
 (** the three regimes of a time step *)
 Theorem C14_step_both_sources : forall c d, col_ok c -> el_col c -> 0 <= d -> zg (c_pv c) -> zg (c_chp c) ->
@@ -167,6 +203,10 @@ Print Assumptions C14_load_matching_used_production.
 Print Assumptions C14_load_matching_factor_is_g.
 Print Assumptions C14_load_matching_without_cogeneration.
 Print Assumptions C14_step_both_sources.
+Print Assumptions C14_load_matching_cogeneration_used.
+Print Assumptions C14_load_matching_factor_is_F.
+Print Assumptions C14_load_matching_step_both_sources.
+Print Assumptions C14_load_matching_carrier.
 Print Assumptions C14_ren_never_shrinks_without_cogeneration.
 Print Assumptions C14_ratio.
 Print Assumptions C14_rer_with_renewable_cogeneration_refuted.
